@@ -30,7 +30,7 @@ LINK_VEC = [(1, 0), (1, 1), (0, 1), (-1, 0), (-1, -1), (0, -1)]
 def plan(tier, prop):
     quick = tier == "quick"
     return {
-        "runs": 2500 if quick else 150000,
+        "runs": 6000 if quick else 300000,
         "budget_s": 50 if quick else 800,
         "chunk": 20 if quick else 100,
         "rule": "each run = a generated set of routing trees folded "
